@@ -252,3 +252,14 @@ case("c09-keep-ltr-flag-order", "keep", ["C09"], [(BD, """                if !ma
                 if prev != BidiClass::L && prev != BidiClass::EN {
                     return false;
                 }""")], "flag set before the test; same language")
+
+# ------------------------------------------------------------------ C12
+case("c12-revert-d2", "break", ["C12"], [(NK, "            let mut begin = res.is_empty();\n            let mut prev_space = res.ends_with(common::SPACE);", "            let mut begin = true;\n            let mut prev_space = false;")], "reverts the D2 repair", expect_key=["nickname-rule|word"])
+case("c12-emit-z", "break", ["C12"], [(NK, "                if !prev_space {\n                    res.push(common::SPACE);\n                }", "                if !prev_space {\n                    res.push(c);\n                }")], "interior non-ASCII space copied instead of mapped to U+0020", expect_key=["nickname-rule|word"])
+case("c12-reset-prev-on-s", "break", ["C12"], [(NK, "                if !prev_space {\n                    res.push(common::SPACE);\n                }\n\n                prev_space = true;", "                if !prev_space {\n                    res.push(common::SPACE);\n                }\n\n                prev_space = c != common::SPACE;")], "a run S S is not collapsed after the first problem", expect_key=["nickname-rule|word"])
+case("c12-scan-misses-double", "break", ["C12"], [(NK, "        if prev_space {\n            // More than one separator\n            return Some(index);\n        }\n", "")], "scan no longer reports two ASCII spaces in a row", expect_key=["nickname-rule|word"])
+case("c12-password-maps-all-zs", "break", ["C12", "C05"], [(PW, "        match s.find(common::is_non_ascii_space) {", "        match s.find(|c: char| c == '\\u{a0}' || c == '\\u{3000}') {")], "fast path looks only for two of the non-ASCII spaces: a string whose only one is U+2003 is returned unchanged", expect_key=["password-rule|trigger"])
+case("c12-password-drops", "break", ["C12"], [(PW, "                    if common::is_non_ascii_space(c) {\n                        res.push(common::SPACE);\n                    } else {", "                    if common::is_non_ascii_space(c) {\n                        continue;\n                    } else {")], "non-ASCII spaces deleted instead of mapped", expect_key=["password-rule|map"])
+case("c12-ideographic-not-space", "break", ["C12", "C15"], [("precis-profiles/build.rs", 'UcdTableGen::new("Zs", "space_separator")', 'UcdTableGen::new("Zl", "space_separator")')], "table no longer Zs", expect_key=["L5"])
+case("c12-keep-while-let", "keep", ["C12", "C01"], [(NK, "            for c in s[pos..].chars() {\n                if !common::is_space_separator(c) {\n                    res.push(c);", "            let mut it = s[pos..].chars();\n            while let Some(c) = it.next() {\n                if !common::is_space_separator(c) {\n                    res.push(c);")], "for → while let")
+case("c12-keep-pop-ends-with", "keep", ["C12"], [(NK, "            if let Some(c) = res.pop() {\n                if c != common::SPACE {\n                    res.push(c);\n                }\n            }", "            if res.ends_with(common::SPACE) {\n                res.pop();\n            }")], "trailing space removed with ends_with + pop")
